@@ -7,10 +7,11 @@ import time
 from framework.checklib import CorrResult
 from framework import coqrun
 from harness import funccorr as fc
+from translator import t11_truth_table
 
 ID = 'C12'
 CORPUS = pathlib.Path(__file__).resolve().parent.parent / 'harness' / 'corpus' / 'C12'
-TRANSLATORS = []
+TRANSLATORS = [t11_truth_table.translate]
 PROPERTY_FILE = 'Properties/C12.v'
 THEOREMS = ['C12_product_is_canonical_order', 'C12_fixed_sum_iterator', 'C12_fixed_sum_iterator_no_negations',
             'C12_symmetric_iff_constant_on_weight_classes', 'C12_monotone_is_sorted_row',
@@ -22,7 +23,8 @@ THEOREMS = ['C12_product_is_canonical_order', 'C12_fixed_sum_iterator', 'C12_fix
             'C12_define_python_model', 'C12_define_truth_table_model',
             'C12_canonical_index_to_input', 'C12_from_int_unary_func', 'C12_from_int_binary_func',
             'C12_pyfunction_constructor', 'C12_from_int_unary_func_sizes', 'C12_from_int_binary_func_sizes',
-            'C12_memoised_circuit_queries', 'C12_example_represented']
+            'C12_memoised_circuit_queries', 'C12_example_represented',
+            'C12_truth_table_regenerated', 'C12_truth_table_regenerated_define_applies']
 PARTIAL = {}
 LEVEL_TEXT = ('for every Boolean function f with arities n, m >= 1 and every query of the protocol with index arguments '
               'inside the arities, the modelled code of Circuit, TruthTable and PyFunction (three different algorithms '
@@ -36,13 +38,24 @@ LEVEL_TEXT = ('for every Boolean function f with arities n, m >= 1 and every que
               'n <= 3 inputs and 1-2 outputs (3x2 sampled in quick) x 3 classes x all queries x all index arguments '
               'incl. exception kinds')
 LEVEL_NOTE = ('Coq kernel + vm_compute; hand-written model of the code repaired by fixes/D4, D16, D21; correspondence '
-              'harness. Hypotheses of the query theorems: the circuit computes f through Circuit.evaluate/evaluate_at '
+              'harness. Second tie: translator T11 regenerates core/utils.py (input_to_canonical_index, '
+              'canonical_index_to_input, get_bit_value), input_iterator_with_fixed_sum, every method of TruthTable '
+              'and TruthTableModel (incl. both constructors, resolve_input_size, _parse_bool, _parse_trival, define) '
+              'and the constructor and protocol methods of PyFunction / PyFunctionModel (callable = Gallina function) '
+              'from the source on every check, and C12_truth_table_regenerated proves each regenerated definition '
+              'equal to the hand-model function (index / size arguments naturals; define: table of valid shape); '
+              'trusted there: the translator and its prelude of Python primitives (list / str / int operations, '
+              'math.log2 as floor + exactness flag). Not regenerated for C12: the protocol methods of Circuit '
+              '(Circuit.evaluate / get_truth_table are, by T10, for C01), the static factories of PyFunction '
+              '(from_positional, from_int_*_func) and PyFunctionModel.define (they build closures). Hypotheses of the query theorems: the circuit computes f through Circuit.evaluate/evaluate_at '
               '(that evaluate is the netlist semantics is C01), the callable computes f, the table is the table of f; '
               'm >= 1 (a TruthTable with no output cannot be constructed). "monotone" is the protocol\'s documented '
               'notion (output sequence in enumeration order non-decreasing / non-increasing), NOT lattice monotonicity. '
               'Exception kinds for out-of-range index arguments, wrong-length input vectors, malformed definitions and '
               'the constructors are covered by the correspondence only.')
-TECHNIQUE = ('Coq proof: enumeration lemmas (itertools.product order = big-endian index bijection; combinations <-> '
+TECHNIQUE = ('fail-closed ast translation of truth_table.py / utils.py to Gallina (loops with break / return as '
+             'a control-flow fold, generators as lists, objects as records) proved equal to the hand model; '
+             'Coq proof: enumeration lemmas (itertools.product order = big-endian index bijection; combinations <-> '
              'weight classes; zip(*rows) of a rectangular matrix), each Python loop with early exit shown equal to a '
              'pure fold over a total evaluator, the three monotonicity loops shown to decide StronglySorted of the '
              'row, symmetric <-> constant on weight classes via Permutation of Boolean lists, define by a cell-wise '
